@@ -174,6 +174,27 @@ def rand_grammar(rng, nN=None, nT=None, nrules=None, maxlen=3, pnull=0.15, punar
     return {"S": 0, "nT": nT, "rules": rules}
 
 
+def rand_nullable_grammar(rng, nT=2, boolean=False):
+    """finite-language grammars with many nullable nonterminals and long bodies: nullable prefixes and
+    suffixes of right-hand sides (several nullable symbols in a row, repeated nullable symbols)"""
+    nN = rng.randint(3, 5)
+    rules = []
+    W = lambda: (True if boolean else fs(rng.choice(WEIGHTS[:7])))
+    for X in range(1, nN):
+        if rng.random() < 0.75:
+            rules.append([W(), X, []])
+        if rng.random() < 0.8:
+            rules.append([W(), X, [["T", rng.randrange(nT)]]])
+        if X + 1 < nN and rng.random() < 0.4:
+            rules.append([W(), X, [["N", rng.randint(X + 1, nN - 1)], ["T", rng.randrange(nT)]]])
+    for _ in range(rng.randint(1, 3)):
+        L = rng.randint(2, 4)
+        body = [(["N", rng.randint(1, nN - 1)] if rng.random() < 0.7 else ["T", rng.randrange(nT)]) for _ in range(L)]
+        rules.append([W(), 0, body])
+    rng.shuffle(rules)
+    return {"S": 0, "nT": nT, "rules": rules}
+
+
 def permute_rename(rng, g):
     """rule permutation + injective renaming of nonterminals (property-preserving)"""
     nts = nts_of(g)
